@@ -166,6 +166,11 @@ func (c *Chunker) Next() (uint64, []byte, error) {
 		m = len(c.buf)
 	}
 
+	// With min == max there's no room to look for a boundary
+	if m <= int(c.min) {
+		return c.split(m, nil)
+	}
+
 	// Initialize the rolling hash window with the ChunkerWindowSize bytes
 	// immediately prior to min size
 	window := c.buf[c.min-ChunkerWindowSize : c.min]
